@@ -142,7 +142,8 @@ def check(rec, case):
     for ep, r in results.items():
         if r[0] == "bad":
             sig = r[1]
-            if sig.startswith("RecursionError") and nsig[0] >= 300 and not case.get("default_limit"):
+            # (an input cannot hold more tokens than characters: a larger count means the tokenizer ran away, which is no resource limit)
+            if sig.startswith("RecursionError") and 300 <= nsig[0] <= len(src) and not case.get("default_limit"):
                 rec.inconclusive["RecursionError on >=300 tokens (resource limit)"] += 1
                 continue
             rec.fail(case, "hang" if sig == "hang" else sig, dict(r[2], entry_point=ep))
